@@ -248,4 +248,4 @@ Definition kf_class (c : case) : nat :=
 
 Definition kf_codes (cs : list case) : list nat :=
   flat_map (fun c => if oracle_case c then [] else
-                     match kf_class c with O => [] | k => [(cid c * 10 + k)%nat] end) cs.
+                     match kf_class c with O => [] | k => [cid c; k] end) cs.
